@@ -107,6 +107,28 @@ pub fn c11_oracle(c: &DelCase, st: &mut Stats) -> PResult {
     if sec == 0 {
         // the question: one record, deleted or not
         let del = !c.delete.is_empty();
+        if c.prehistory {
+            // the object is already decompressed by an earlier edit elsewhere and the question getters were used
+            let r = catch(|| -> Result<(), String> {
+                let w = {
+                    let a = pp.into_iter_answer().ok_or("no answer")?;
+                    let mut w = vec![];
+                    a.copy_raw_name(&mut w);
+                    w
+                };
+                let mut a = pp.into_iter_answer().ok_or("no answer")?;
+                a.set_raw_name(&w).map_err(|e| e.to_string())?;
+                let _ = pp.question_raw0().map(|q| q.0.len());
+                let _ = pp.question();
+                Ok(())
+            });
+            match r {
+                Err(pm) => fail!(format!("C11 prehistory-panic {}", panic_sig(&pm)), "{} {}", pm, ctxs()),
+                Ok(Err(e)) => fail!("C11 prehistory-fails", "{} {}", e, ctxs()),
+                Ok(Ok(())) => {}
+            }
+            st.class("prehistory:question-cache-warm");
+        }
         let r = catch(|| -> PResult {
             let mut yields = 0;
             let mut it = pp.into_iter_question();
@@ -144,6 +166,12 @@ pub fn c11_oracle(c: &DelCase, st: &mut Stats) -> PResult {
             st.class("emptied-section");
         }
         ensure!(d.msg == want, "C11 final-message-wrong", "{}; {}", want.diff(&d.msg, false), ctxs());
+        // the emptied (or untouched) question also reads as such through the getters
+        let r = catch(|| check_summary(&mut pp, &d, 4, "C11", false));
+        match r {
+            Err(pm) => fail!(format!("C11 view-panic {}", panic_sig(&pm)), "{} {}", pm, ctxs()),
+            Ok(r) => r.map_err(|f| Failure::new(f.sig, format!("{}; {}", f.detail, ctxs())))?,
+        }
         return Ok(());
     }
     let n = c.msg.section(sec).iter().filter(|r| !r.is_opt()).count();
@@ -298,7 +326,7 @@ fn c11_case(data: &[u8], st: &mut Stats) -> PResult {
     let seed = src.bytes(64);
     let filler = if sec != 0 && src.chance(40) { src.range(15_900, 16_420) } else { 0 };
     let mut c = build_del_case_filler(sec, n, mask, opt_pos, delete_opt, incl_opt, compressed, &seed, filler);
-    c.prehistory = sec != 0 && filler == 0 && src.chance(50);
+    c.prehistory = filler == 0 && src.chance(if sec == 0 { 128 } else { 50 });
     if filler > 0 {
         st.class("around-offset-16384");
     }
@@ -384,7 +412,7 @@ pub fn check_c11(ctx: &Ctx, known: &KnownFindings) -> Report {
     rep.absorb(r);
     rep.require(&[
         "section:0", "section:1", "section:2", "section:3", "delete:none", "delete:all", "delete:some", "delete:adjacent", "delete:first", "delete:last", "delete:opt", "emptied-section",
-        "layout:compressed", "layout:literal", "exhaustive-subsets", "around-offset-16384", "prehistory:decompress-then-rename",
+        "layout:compressed", "layout:literal", "exhaustive-subsets", "around-offset-16384", "prehistory:decompress-then-rename", "prehistory:question-cache-warm",
     ]);
     rep
 }
